@@ -39,7 +39,7 @@ def train_scenario(ctx, i):
     m0 = m + r.normal(size=m.shape) * np.sqrt(v) * 0.7
     v0 = v * np.exp(r.uniform(-0.7, 0.7, size=v.shape))
     um, uv, uw = SWITCHES[i % 8]
-    return dict(C=C, D=D, w=w0, m=m0, v=v0, x=x, x_dtype=str(np.asarray(x).dtype), um=um, uv=uv, uw=uw, thr=gen.EPS, floor=gen.EPS, was_map=bool(r.random() < 0.15),
+    return dict(C=C, D=D, w=w0, m=m0, v=v0, x=x, x_dtype=str(np.asarray(x).dtype), um=um, uv=uv, uw=uw, thr=gen.EPS, floor=gen.EPS, was_map=bool(r.random() < 0.15), inplace_var=int(r.integers(0, 10**6)) if r.random() < 0.25 else None,
                 sw_kind=["py", "py", "np", "int"][int(r.integers(0, 4))])
 
 
@@ -61,6 +61,12 @@ def mk(sc, **kw):
         return g
     g = gen.mk_gmm(sc["w"], sc["m"], sc["v"], thr=sc.get("floor", gen.EPS), update_means=sc["um"], update_variances=sc["uv"],
                    update_weights=sc["uw"], mean_var_update_threshold=sc["thr"], **kw)
+    if sc.get("inplace_var") is not None:
+        # the starting variances are reached by augmented assignment on the property (`machine.variances *= factors`, one factor per
+        # Gaussian): the machine's variances are what the property shows afterwards
+        f_ = np.random.default_rng(int(sc["inplace_var"])).choice([0.25, 0.5, 2.0, 4.0], size=(len(np.asarray(sc["w"])), 1))
+        g.variances = np.asarray(sc["v"], dtype=float) / f_
+        g.variances *= f_
     return g
 
 
@@ -414,7 +420,7 @@ def search(ctx):
         ctx.case(["mono", core.tolist(sc["x"]), i % 8, sc["chunks"]], nontrivial=True)
         f = oracle_monotone(sc)
         if f:
-            f["input"] = {k: sc[k] for k in ("w", "m", "v", "x", "x_dtype", "um", "uv", "uw", "thr", "floor", "chunks", "was_map", "sw_kind") if k in sc}
+            f["input"] = {k: sc[k] for k in ("w", "m", "v", "x", "x_dtype", "um", "uv", "uw", "thr", "floor", "chunks", "was_map", "sw_kind", "inplace_var") if k in sc}
             f["oracle"] = "monotone"
             fails.append(f)
             break
@@ -438,7 +444,7 @@ def search(ctx):
         ctx.case(["iso", core.tolist(sc["x"]), sizes, cap], nontrivial=True)
         f = oracle_isolated(sc, sizes, cap, seed)
         if f:
-            f["input"] = {**{k: sc[k] for k in ("w", "m", "v", "x", "um", "uv", "uw", "thr", "floor", "was_map", "sw_kind") if k in sc}, "sizes": sizes, "cap": cap, "seed": seed}
+            f["input"] = {**{k: sc[k] for k in ("w", "m", "v", "x", "um", "uv", "uw", "thr", "floor", "was_map", "sw_kind", "inplace_var") if k in sc}, "sizes": sizes, "cap": cap, "seed": seed}
             f["oracle"] = "isolated"
             fails.append(f)
             break
@@ -450,7 +456,7 @@ def search(ctx):
                 ctx.count("search:stop")
                 ctx.case(["stop", core.tolist(sc["x"]), cap, thr, use_dask], nontrivial=True)
                 if f:
-                    f["input"] = {**{k: sc[k] for k in ("w", "m", "v", "x", "x_dtype", "um", "uv", "uw", "thr", "floor", "was_map", "sw_kind") if k in sc}, "cap": cap, "conv_thr": thr, "dask": use_dask, "sizes": sizes}
+                    f["input"] = {**{k: sc[k] for k in ("w", "m", "v", "x", "x_dtype", "um", "uv", "uw", "thr", "floor", "was_map", "sw_kind", "inplace_var") if k in sc}, "cap": cap, "conv_thr": thr, "dask": use_dask, "sizes": sizes}
                     f["oracle"] = "stop"
                     fails.append(f)
                     break
